@@ -1,17 +1,657 @@
+// vcheck: solver-based checking of litefs properties (see /verif/DESIGN.md).
 package main
 
 import (
+	"bufio"
+	"encoding/json"
+	"flag"
 	"fmt"
-	"golang.org/x/tools/go/packages"
-	"golang.org/x/tools/go/ssa"
-	"golang.org/x/tools/go/ssa/ssautil"
+	"os"
+	"os/exec"
+	"path/filepath"
+	"runtime"
+	"sort"
+	"strconv"
+	"strings"
+	"time"
+
+	"verif/engine/sym"
 )
 
+type HarnessSpec struct {
+	Name         string   `json:"name"`
+	Pkg          string   `json:"pkg"`
+	Func         string   `json:"func"`
+	Tiers        []string `json:"tiers"` // which tiers run it; empty = both
+	MaxDecisions int      `json:"max_decisions"`
+	TimeoutMS    int      `json:"timeout_ms"`
+	MaxPaths     int      `json:"max_paths"`
+	Native       bool     `json:"native"` // witnesses/counterexamples are replayed natively (go test -overlay)
+	NativeTest   string   `json:"native_test"`
+	SkipGo       []string `json:"skip_go"`
+	Twins        []string `json:"twins"` // TWIN: check messages that must be violated
+	Reach        []string `json:"reach"` // tags that must be reached
+	What         string   `json:"what"`
+}
+
+type PropSpec struct {
+	Property    string            `json:"property"`
+	Packages    []string          `json:"packages"`
+	Harnesses   []HarnessSpec     `json:"harnesses"`
+	Bounds      map[string]string `json:"bounds"`
+	Stubs       []string          `json:"stubs"`
+	Assumptions []string          `json:"assumptions"`
+	Outside     []string          `json:"outside"`
+	Level       string            `json:"level"`
+}
+
+type KnownFinding struct {
+	Status   string `json:"status"` // "open" or "fixed"
+	Property string `json:"property"`
+	Harness  string `json:"harness"`
+	Match    string `json:"match"` // substring of "msg|site-function"
+	What     string `json:"what"`
+	Commit   string `json:"commit,omitempty"`
+}
+
+const verifDir = "/verif"
+
+func repoDir() string {
+	if d := os.Getenv("VERIF_REPO"); d != "" {
+		return d
+	}
+	return "/repo"
+}
+
 func main() {
-	cfg := &packages.Config{Mode: packages.LoadAllSyntax, Dir: "/repo"}
-	pkgs, err := packages.Load(cfg, "github.com/superfly/litefs")
-	if err != nil { panic(err) }
-	prog, spkgs := ssautil.AllPackages(pkgs, ssa.InstantiateGenerics)
-	prog.Build()
-	fmt.Println(len(spkgs), spkgs[0].Func("WALChecksum"))
+	if len(os.Args) < 2 {
+		fmt.Fprintln(os.Stderr, "usage: vcheck run <Cxx> [--tier quick|thorough] | replay <file> | list")
+		os.Exit(2)
+	}
+	switch os.Args[1] {
+	case "run":
+		os.Exit(cmdRun(os.Args[2:]))
+	case "replay":
+		os.Exit(cmdReplay(os.Args[2:]))
+	default:
+		fmt.Fprintln(os.Stderr, "unknown command")
+		os.Exit(2)
+	}
+}
+
+func loadSpec(id string) (*PropSpec, error) {
+	b, err := os.ReadFile(filepath.Join(verifDir, "props", id+".json"))
+	if err != nil {
+		return nil, err
+	}
+	var ps PropSpec
+	if err := json.Unmarshal(b, &ps); err != nil {
+		return nil, err
+	}
+	return &ps, nil
+}
+
+func loadKnown() []KnownFinding {
+	f, err := os.Open(filepath.Join(verifDir, "KNOWN_FINDINGS.jsonl"))
+	if err != nil {
+		return nil
+	}
+	defer f.Close()
+	var out []KnownFinding
+	sc := bufio.NewScanner(f)
+	sc.Buffer(make([]byte, 1<<20), 1<<20)
+	for sc.Scan() {
+		line := strings.TrimSpace(sc.Text())
+		if line == "" || strings.HasPrefix(line, "#") {
+			continue
+		}
+		var k KnownFinding
+		if json.Unmarshal([]byte(line), &k) == nil {
+			out = append(out, k)
+		}
+	}
+	return out
+}
+
+func tierOK(h HarnessSpec, tier string) bool {
+	if len(h.Tiers) == 0 {
+		return true
+	}
+	for _, t := range h.Tiers {
+		if t == tier {
+			return true
+		}
+	}
+	return false
+}
+
+type harnessResult struct {
+	Name         string         `json:"harness"`
+	What         string         `json:"what,omitempty"`
+	Paths        int            `json:"paths_completed"`
+	Infeasible   int            `json:"paths_infeasible"`
+	Blocks       int64          `json:"ssa_blocks"`
+	Steps        int64          `json:"ssa_instructions"`
+	Obligations  int            `json:"obligations"`
+	Discharged   int            `json:"discharged"`
+	Syntactic    int            `json:"discharged_syntactically"`
+	Sat          int            `json:"queries_sat"`
+	Unsat        int            `json:"queries_unsat"`
+	Unknown      int            `json:"queries_unknown"`
+	SolverS      float64        `json:"solver_s"`
+	WallS        float64        `json:"wall_s"`
+	Reached      map[string]int `json:"reach_witnesses"`
+	TwinsSeen    []string       `json:"twin_assertions_violated_as_expected"`
+	Notes        map[string]int `json:"notes,omitempty"`
+	Inconclusive []string       `json:"inconclusive,omitempty"`
+	NativeReplays int           `json:"native_replays"`
+	EngineReplays int           `json:"engine_concrete_replays"`
+}
+
+func cmdRun(args []string) int {
+	fs := flag.NewFlagSet("run", flag.ExitOnError)
+	tier := fs.String("tier", "", "quick|thorough")
+	only := fs.String("harness", "", "run only this harness")
+	workers := fs.Int("workers", 0, "worker count")
+	trace := fs.Bool("trace", false, "trace calls")
+	solver := fs.String("solver", "z3", "solver binary")
+	noEvidence := fs.Bool("no-evidence", false, "do not write the evidence file")
+	if len(args) < 1 {
+		fmt.Fprintln(os.Stderr, "usage: vcheck run <Cxx> ...")
+		return 2
+	}
+	id := args[0]
+	fs.Parse(args[1:])
+	if *tier == "" {
+		*tier = os.Getenv("VERIF_TIER")
+	}
+	if *tier == "" {
+		*tier = "quick"
+	}
+	seed, _ := strconv.Atoi(os.Getenv("VERIF_SEED"))
+	if *workers == 0 {
+		*workers = runtime.NumCPU()
+		if *workers > 16 {
+			*workers = 16
+		}
+	}
+	t0 := time.Now()
+	spec, err := loadSpec(id)
+	if err != nil {
+		fmt.Println("INCONCLUSIVE: cannot load spec:", err)
+		return 3
+	}
+	prog, err := sym.Load(repoDir(), verifDir, spec.Packages)
+	if err != nil {
+		fmt.Println("INCONCLUSIVE:", err)
+		return 3
+	}
+	loadS := time.Since(t0).Seconds()
+	known := loadKnown()
+	tierN := 0
+	if *tier == "thorough" {
+		tierN = 1
+	}
+
+	var results []harnessResult
+	var allViol []*sym.Violation
+	var knownHits []string
+	funcs := map[string]bool{}
+	inconclusive := false
+	var samples []interface{}
+	totalReplays := 0
+	for _, h := range spec.Harnesses {
+		if *only != "" && h.Name != *only && h.Func != *only {
+			continue
+		}
+		if !tierOK(h, *tier) {
+			continue
+		}
+		ht0 := time.Now()
+		ex, err := prog.NewExplorerFor(h.Pkg, h.Func)
+		if err != nil {
+			fmt.Println("INCONCLUSIVE:", err)
+			return 3
+		}
+		ex.Tier = tierN
+		ex.Workers = *workers
+		ex.SolverBin = *solver
+		ex.SetTrace(*trace)
+		ex.SkipGo(h.SkipGo...)
+		if h.MaxDecisions > 0 {
+			ex.MaxDecisions = h.MaxDecisions
+		}
+		if h.TimeoutMS > 0 {
+			ex.TimeoutMS = h.TimeoutMS
+		}
+		if h.MaxPaths > 0 {
+			ex.MaxPaths = h.MaxPaths
+		}
+		ex.Run()
+		hr := harnessResult{Name: h.Name, What: h.What, Paths: ex.PathsDone, Infeasible: ex.Infeasible, Blocks: ex.Blocks, Steps: ex.Steps,
+			Obligations: ex.Checks, Discharged: ex.Discharged, Syntactic: ex.Trivial,
+			Sat: ex.NSat, Unsat: ex.NUnsat, Unknown: ex.NUnknown, SolverS: ex.SolverTime.Seconds(),
+			Reached: ex.Reached, Notes: ex.Notes}
+		for tw := range ex.ExpectSeen {
+			hr.TwinsSeen = append(hr.TwinsSeen, tw)
+		}
+		sort.Strings(hr.TwinsSeen)
+		hr.Inconclusive = ex.InconclusiveSummary()
+		// vacuity: required reach tags and twins
+		for _, tag := range h.Reach {
+			if ex.Reached[tag] == 0 {
+				hr.Inconclusive = append(hr.Inconclusive, "VACUOUS: reach tag never reached: "+tag)
+			}
+		}
+		for _, tw := range h.Twins {
+			if !ex.ExpectSeen["TWIN:"+tw] {
+				hr.Inconclusive = append(hr.Inconclusive, "VACUOUS: twin assertion was not violated: "+tw)
+			}
+		}
+		if ex.PathsDone == 0 && len(ex.Violations) == 0 {
+			hr.Inconclusive = append(hr.Inconclusive, "VACUOUS: no path completed")
+		}
+		for k := range ex.FuncsSeen {
+			funcs[k] = true
+		}
+		// native replay (go test -overlay against the real build): witnesses and counterexamples
+		nativeRes := map[*sym.Violation]string{}
+		if h.Native {
+			var items []*sym.Violation
+			var tags []string
+			for tag := range ex.ReachModels {
+				tags = append(tags, tag)
+			}
+			sort.Strings(tags)
+			for _, tag := range tags {
+				items = append(items, ex.ReachModels[tag])
+			}
+			items = append(items, ex.PathWitnesses...)
+			items = append(items, ex.Violations...)
+			if len(items) > 0 {
+				nativeRes = nativeBatch(h, items)
+			}
+			for _, tag := range tags {
+				w := ex.ReachModels[tag]
+				out := nativeRes[w]
+				if strings.HasPrefix(out, "ok|") && containsTag(out, tag) {
+					hr.NativeReplays++
+					totalReplays++
+				} else {
+					hr.Inconclusive = append(hr.Inconclusive, fmt.Sprintf("TRANSLATOR-MISMATCH: witness for %q did not behave natively as predicted: %s", tag, out))
+				}
+			}
+		}
+		for _, w := range ex.PathWitnesses {
+			out := nativeRes[w]
+			if !h.Native {
+				break
+			}
+			want := "ok|" + strings.TrimPrefix(w.Expect, "ok:")
+			if sameTags(out, want) {
+				hr.NativeReplays++
+				totalReplays++
+			} else {
+				hr.Inconclusive = append(hr.Inconclusive, fmt.Sprintf("TRANSLATOR-MISMATCH: completed-path witness behaved differently natively: predicted %q, native %q", want, out))
+			}
+		}
+		for _, v := range ex.Violations {
+			v.Harness = h.Name
+			ok := engineReplay(prog, h, v, tierN)
+			if ok {
+				hr.EngineReplays++
+			}
+			if !ok {
+				hr.Inconclusive = append(hr.Inconclusive, "UNCONFIRMED: counterexample did not reproduce in concrete replay: "+v.Msg+" @ "+v.Site)
+				continue
+			}
+			if h.Native {
+				out := nativeRes[v]
+				if strings.HasPrefix(out, "fail:") || strings.HasPrefix(out, "panic:") {
+					hr.NativeReplays++
+					totalReplays++
+				} else {
+					hr.Inconclusive = append(hr.Inconclusive, "UNCONFIRMED: counterexample did not reproduce natively ("+out+"): "+v.Msg+" @ "+v.Site)
+					continue
+				}
+			}
+			if k := matchKnown(known, id, h.Name, v); k != nil {
+				knownHits = append(knownHits, fmt.Sprintf("KNOWN-FINDING: property=%s %s [%s: %s @ %s]", id, k.What, h.Name, v.Msg, v.Site))
+				continue
+			}
+			allViol = append(allViol, v)
+		}
+		if len(hr.Inconclusive) > 0 {
+			inconclusive = true
+		}
+		for _, s := range ex.Samples {
+			if len(samples) < 8 {
+				samples = append(samples, map[string]string{"harness": h.Name, "path": s})
+			}
+		}
+		hr.WallS = time.Since(ht0).Seconds()
+		results = append(results, hr)
+		fmt.Printf("harness %-28s paths=%d infeasible=%d obligations=%d discharged=%d sat=%d unsat=%d unknown=%d solver=%.1fs wall=%.1fs viol=%d\n",
+			h.Name, hr.Paths, hr.Infeasible, hr.Obligations, hr.Discharged, hr.Sat, hr.Unsat, hr.Unknown, hr.SolverS, hr.WallS, len(ex.Violations))
+		for _, s := range hr.Inconclusive {
+			fmt.Println("  INCONCLUSIVE:", s)
+		}
+	}
+	if len(results) == 0 {
+		fmt.Println("INCONCLUSIVE: no harness selected")
+		return 3
+	}
+
+	// write replay files + report
+	exit := 0
+	os.MkdirAll(filepath.Join(verifDir, "out", "replay"), 0o755)
+	for i, v := range allViol {
+		path := filepath.Join(verifDir, "out", "replay", fmt.Sprintf("%s-%d.json", id, i))
+		b, _ := json.MarshalIndent(v, "", " ")
+		os.WriteFile(path, b, 0o644)
+		fmt.Printf("VIOLATION property=%s replay=%s\n", id, path)
+		fmt.Printf("  %s: %s @ %s\n  stack: %s\n", v.Harness, v.Msg, v.Site, v.Stack)
+		exit = 1
+	}
+	sort.Strings(knownHits)
+	for _, k := range uniq(knownHits) {
+		fmt.Println(k)
+	}
+	if exit == 0 && inconclusive {
+		exit = 3
+	}
+
+	if !*noEvidence && *only == "" {
+		writeEvidence(id, spec, *tier, seed, results, funcs, prog, samples, len(allViol), time.Since(t0).Seconds(), loadS, *solver, knownHits, totalReplays)
+	}
+	if exit == 0 {
+		fmt.Printf("OK property=%s tier=%s wall=%.1fs\n", id, *tier, time.Since(t0).Seconds())
+	} else if exit == 3 {
+		fmt.Printf("INCONCLUSIVE property=%s tier=%s\n", id, *tier)
+	}
+	return exit
+}
+
+func uniq(s []string) []string {
+	var out []string
+	for i, x := range s {
+		if i == 0 || x != s[i-1] {
+			out = append(out, x)
+		}
+	}
+	return out
+}
+
+func matchKnown(known []KnownFinding, id, harness string, v *sym.Violation) *KnownFinding {
+	key := v.Msg + "|" + v.Site + "|" + v.Stack
+	for i := range known {
+		k := &known[i]
+		if k.Status != "open" || k.Property != id {
+			continue
+		}
+		if k.Harness != "" && k.Harness != harness {
+			continue
+		}
+		all := true
+		for _, part := range strings.Split(k.Match, "&&") {
+			if !strings.Contains(key, strings.TrimSpace(part)) {
+				all = false
+			}
+		}
+		if all {
+			return k
+		}
+	}
+	return nil
+}
+
+// engineReplay re-executes the harness with the model's concrete values; all
+// branches then fold to constants and the same obligation must fail.
+func engineReplay(prog *sym.Program, h HarnessSpec, v *sym.Violation, tier int) bool {
+	ex, err := prog.NewExplorerFor(h.Pkg, h.Func)
+	if err != nil {
+		return false
+	}
+	ex.Tier = tier
+	ex.Replay = v
+	ex.SkipGo(h.SkipGo...)
+	ex.Run()
+	for _, w := range ex.Violations {
+		if w.Msg == v.Msg {
+			return true
+		}
+	}
+	if os.Getenv("VERIF_DEBUG_REPLAY") != "" {
+		fmt.Println("  engine replay: violations:", len(ex.Violations), "inconclusive:", ex.InconclusiveSummary())
+	}
+	return false
+}
+
+func sameTags(a, b string) bool {
+	norm := func(s string) string {
+		i := strings.Index(s, "|")
+		if i < 0 {
+			return s
+		}
+		m := map[string]bool{}
+		for _, t := range strings.Split(s[i+1:], ",") {
+			if t != "" {
+				m[t] = true
+			}
+		}
+		return s[:i] + "|" + strings.Join(sym.SortedKeys(m), ",")
+	}
+	return norm(a) == norm(b)
+}
+
+func containsTag(out, tag string) bool {
+	i := strings.Index(out, "|")
+	if i < 0 {
+		return false
+	}
+	for _, t := range strings.Split(out[i+1:], ",") {
+		if t == tag {
+			return true
+		}
+	}
+	return false
+}
+
+// nativeBatch replays items natively with one `go test -overlay` run of the
+// harness package; result per item: "ok|tags", "fail:msg", "panic:msg", ...
+func nativeBatch(h HarnessSpec, items []*sym.Violation) map[*sym.Violation]string {
+	res := map[*sym.Violation]string{}
+	os.MkdirAll(filepath.Join(verifDir, "out"), 0o755)
+	dir, err := os.MkdirTemp(filepath.Join(verifDir, "out"), "native-")
+	if err != nil {
+		return res
+	}
+	defer os.RemoveAll(dir)
+	rdir := filepath.Join(dir, "replays")
+	os.MkdirAll(rdir, 0o755)
+	byFile := map[string]*sym.Violation{}
+	for i, it := range items {
+		name := fmt.Sprintf("r%04d.json", i)
+		b, _ := json.Marshal(it)
+		os.WriteFile(filepath.Join(rdir, name), b, 0o644)
+		byFile[name] = it
+	}
+	_, src, err := sym.BuildOverlay(repoDir(), verifDir)
+	if err != nil {
+		return res
+	}
+	ovb, _ := json.Marshal(struct{ Replace map[string]string }{Replace: src})
+	ovf := filepath.Join(dir, "overlay.json")
+	os.WriteFile(ovf, ovb, 0o644)
+	test := h.NativeTest
+	if test == "" {
+		test = "TestVerifNative"
+	}
+	cmd := exec.Command("go", "test", "-mod=mod", "-vet=off", "-count=1", "-v", "-overlay", ovf, "-run", "^"+test+"$", "-timeout", "600s", h.Pkg)
+	cmd.Dir = repoDir()
+	cmd.Env = append(os.Environ(), "GOFLAGS=-mod=mod", "GOPROXY=off", "GOSUMDB=off", "GOTOOLCHAIN=local", "VERIF_REPLAY_DIR="+rdir)
+	out, _ := cmd.CombinedOutput()
+	if os.Getenv("VERIF_DEBUG_REPLAY") != "" {
+		fmt.Println(string(out))
+	}
+	for _, line := range strings.Split(string(out), "\n") {
+		if !strings.HasPrefix(line, "VERIF-NATIVE-RESULT ") {
+			continue
+		}
+		var file, outcome, reached string
+		rest := strings.TrimPrefix(line, "VERIF-NATIVE-RESULT ")
+		if i := strings.Index(rest, " outcome="); i >= 0 {
+			file = strings.TrimPrefix(rest[:i], "file=")
+			rest = rest[i+len(" outcome="):]
+		}
+		if j := strings.LastIndex(rest, " reached="); j >= 0 {
+			outcome, reached = rest[:j], rest[j+len(" reached="):]
+		} else {
+			outcome = rest
+		}
+		if it := byFile[file]; it != nil {
+			if outcome == "ok" {
+				res[it] = "ok|" + reached
+			} else {
+				res[it] = outcome
+			}
+		}
+	}
+	for _, it := range items {
+		if _, ok := res[it]; !ok {
+			res[it] = "no-result (native build or run failed)"
+		}
+	}
+	return res
+}
+
+func cmdReplay(args []string) int {
+	if len(args) < 1 {
+		fmt.Fprintln(os.Stderr, "usage: vcheck replay <file>")
+		return 2
+	}
+	b, err := os.ReadFile(args[0])
+	if err != nil {
+		fmt.Println(err)
+		return 2
+	}
+	var v sym.Violation
+	if err := json.Unmarshal(b, &v); err != nil {
+		fmt.Println(err)
+		return 2
+	}
+	// find the harness
+	specs, _ := filepath.Glob(filepath.Join(verifDir, "props", "*.json"))
+	for _, sp := range specs {
+		id := strings.TrimSuffix(filepath.Base(sp), ".json")
+		spec, err := loadSpec(id)
+		if err != nil {
+			continue
+		}
+		for _, h := range spec.Harnesses {
+			if h.Name != v.Harness {
+				continue
+			}
+			prog, err := sym.Load(repoDir(), verifDir, spec.Packages)
+			if err != nil {
+				fmt.Println(err)
+				return 3
+			}
+			okE := engineReplay(prog, h, &v, 0) || engineReplay(prog, h, &v, 1)
+			fmt.Printf("engine concrete replay of %s (%s): reproduced=%v\n", v.Harness, v.Msg, okE)
+			if h.Native {
+				out := nativeBatch(h, []*sym.Violation{&v})[&v]
+				fmt.Printf("native replay: %s\n", out)
+				if strings.HasPrefix(out, "fail:") || strings.HasPrefix(out, "panic:") {
+					return 1
+				}
+				return 0
+			}
+			if okE {
+				return 1
+			}
+			return 0
+		}
+	}
+	fmt.Println("harness not found:", v.Harness)
+	return 2
+}
+
+func writeEvidence(id string, spec *PropSpec, tier string, seed int, results []harnessResult, funcs map[string]bool, prog *sym.Program,
+	samples []interface{}, violations int, wall, loadS float64, solver string, knownHits []string, nativeReplays int) {
+	states, transitions := 0, int64(0)
+	obl, dis := 0, 0
+	var sat, unsat, unknown int
+	var solverS float64
+	for _, r := range results {
+		states += r.Paths
+		transitions += r.Blocks
+		obl += r.Obligations
+		dis += r.Discharged
+		sat += r.Sat
+		unsat += r.Unsat
+		unknown += r.Unknown
+		solverS += r.SolverS
+	}
+	hashes := prog.FuncHashes(funcs)
+	var fnames []string
+	for k := range hashes {
+		fnames = append(fnames, k)
+	}
+	sort.Strings(fnames)
+	var flist []string
+	for _, k := range fnames {
+		flist = append(flist, k+"#"+hashes[k])
+	}
+	if len(samples) == 0 {
+		samples = append(samples, "no completed path sample")
+	}
+	solverVersion := ""
+	if out, err := exec.Command(solver, "--version").Output(); err == nil {
+		solverVersion = strings.TrimSpace(string(out))
+	}
+	level := spec.Level
+	if level == "" {
+		level = "model_checking"
+	}
+	if states < 1 {
+		states = 1
+	}
+	if transitions < 1 {
+		transitions = 1
+	}
+	ev := map[string]interface{}{
+		"property_id": id,
+		"tier":        tier,
+		"seed":        seed,
+		"level":       level,
+		"wall_s":      wall,
+		"violations":  violations,
+		"assumptions": append(append([]string{}, spec.Assumptions...), spec.Stubs...),
+		"coverage": map[string]interface{}{
+			"states":                        states,
+			"transitions":                   transitions,
+			"traces_validated_against_impl": nativeReplays,
+			"samples":                       samples,
+			"obligations":                   obl,
+			"discharged":                    dis,
+			"queries":                       map[string]int{"sat": sat, "unsat": unsat, "unknown": unknown},
+			"solver_s":                      solverS,
+			"load_and_ssa_build_s":          loadS,
+			"solver":                        solverVersion,
+			"functions_encoded":             flist,
+			"bounds":                        spec.Bounds,
+			"outside_claim":                 spec.Outside,
+			"stubs":                         spec.Stubs,
+			"harnesses":                     results,
+			"known_findings_reported":       uniq(knownHits),
+			"explanation": "states = symbolic paths completed (each path stands for all values of its symbolic inputs satisfying the path condition); " +
+				"transitions = SSA basic blocks executed by the symbolic interpreter over the real code's SSA (rebuilt from /repo on this run); " +
+				"obligations = Check() sites evaluated on those paths, discharged = proven unsat by the solver or by constant folding.",
+			"exhaustive": false,
+		},
+	}
+	os.MkdirAll(filepath.Join(verifDir, "evidence"), 0o755)
+	b, _ := json.MarshalIndent(ev, "", " ")
+	os.WriteFile(filepath.Join(verifDir, "evidence", id+".json"), b, 0o644)
 }
